@@ -1,2 +1,3 @@
 # one generator function per generated Coq file; each yields (filename, coq text, json twin)
-ALL = []
+from . import chars
+ALL = [chars.gen]
